@@ -29,17 +29,25 @@ type op struct {
 	desc     string // operands (Go-level ops)
 	run      func(e *env) string
 	mustFail bool // a state-changing mutation attempt: must be rejected with an error
+
+	// Three out of four Starlark-level ops are compiled once per case and the one *Program is
+	// then initialised by all 16 goroutines (progs[1]); the solo runs use a separately compiled
+	// instance (progs[0]) so that nothing lazily computed in the shared one exists beforehand.
+	// The remaining ops are parsed, resolved and compiled by every goroutine on its own.
+	progs   [2]*starlark.Program
+	progErr error
 }
 
 // env is the private state of one goroutine (or of the solo run).
 type env struct {
 	w       *world
+	shared  int // 0: solo run, 1: concurrent run on the shared world
 	th      *starlark.Thread
 	printed strings.Builder // output of print() during the current op (thread-local)
 }
 
-func newEnv(w *world, name string) *env {
-	e := &env{w: w}
+func newEnv(w *world, shared int, name string) *env {
+	e := &env{w: w, shared: shared}
 	e.th = &starlark.Thread{Name: name, Print: func(_ *starlark.Thread, msg string) { e.printed.WriteString(msg + "\n") }}
 	return e
 }
@@ -66,7 +74,17 @@ func (o *op) exec(e *env) (out string) {
 
 func (o *op) execSrc(e *env) string {
 	e.printed.Reset()
-	g, err := starlark.ExecFileOptions(fileOpts, e.th, "op.star", o.src, e.w.env)
+	var g starlark.StringDict
+	var err error
+	switch {
+	case o.progErr != nil:
+		err = o.progErr
+	case o.progs[e.shared] != nil:
+		g, err = o.progs[e.shared].Init(e.th, e.w.env)
+		g.Freeze()
+	default:
+		g, err = starlark.ExecFileOptions(fileOpts, e.th, "op.star", o.src, e.w.env)
+	}
 	var b strings.Builder
 	if err != nil {
 		if _, ok := err.(*starlark.EvalError); !ok {
@@ -342,7 +360,24 @@ func (sp *worldSpec) instantiate(t *tmpl, r *rand.Rand) *op {
 		"$I", fmt.Sprint(r.Intn(16)-3), "$J", fmt.Sprint(r.Intn(16)-3), "$K", steps[r.Intn(len(steps))]).Replace(src)
 	// every program also stores its target: re-freeze at module completion
 	src = "keep = " + x + "\n" + src + "\n"
-	return &op{kind: "sl:" + t.kind, cat: t.cat, targets: targets, src: src, mustFail: t.mustFail}
+	o := &op{kind: "sl:" + t.kind, cat: t.cat, targets: targets, src: src, mustFail: t.mustFail}
+	if r.Intn(4) != 0 {
+		for i := range o.progs {
+			_, o.progs[i], o.progErr = starlark.SourceProgramOptions(fileOpts, "op.star", src, sp.isPredeclared)
+		}
+	}
+	return o
+}
+
+func (sp *worldSpec) isPredeclared(name string) bool {
+	if _, ok := sp.index[name]; ok {
+		return true
+	}
+	switch name {
+	case "json", "math", "time", "struct", "mk_adder", "mk_counter", "sum_":
+		return true
+	}
+	return false
 }
 
 // ---------------------------------------------------------------------------------------------
